@@ -222,8 +222,12 @@ where
         };
         self.start_tree.push(start_node);
 
-        let mut rng = rand::rng();
-        let goal_state = pd.goal.sample_goal(&mut rng).unwrap();
+        // Draw the root of the goal tree from the planner's own generator when it has one, so
+        // that a seeded planner is reproducible.
+        let goal_state = match self.rng.as_mut() {
+            Some(rng) => pd.goal.sample_goal(rng).unwrap(),
+            None => pd.goal.sample_goal(&mut rand::rng()).unwrap(),
+        };
         let goal_node = Node {
             state: goal_state,
             parent_index: None,
